@@ -100,6 +100,9 @@ def evaluate(ctx, cases):
             pc = c['center'] == 'peak'
         else:
             df, th = _make_table(c); pc = c['pc']; red = None
+        if c['seed'] % 3 == 0 and not (c['kind'] == 'signal' and c['via'] == 'object'):
+            # row labels that are not positions (as after limit_df / boolean filtering)
+            df = df.copy(); df.index = np.arange(len(df)) * 2 + 7
         before = df.copy(deep=True)
         try:
             if c['kind'] == 'signal' and c['via'] == 'object' and (c['mode'] == 'same' or red is not None):
@@ -149,7 +152,7 @@ def evaluate(ctx, cases):
                 if not p['after_input'].equals(b4) and not (c['kind'] == 'signal' and c['via'] == 'object'):
                     info[tag] = 'the input table was modified'; return False
                 for col in b4.columns:
-                    if col not in ('amp_consistency', 'period_consistency', 'is_burst') and not o[col].equals(b4[col]):
+                    if col not in ('amp_consistency', 'period_consistency', 'is_burst') and not (o[col].equals(b4[col]) and list(o.index) == list(b4.index)):
                         info[tag] = 'column %s changed' % col; return False
                 old = b4['is_burst'].values.astype(bool); new = o['is_burst'].values.astype(bool)
                 ch = [i for i in range(len(o)) if not _close(float(o['amp_consistency'].values[i]), proto.enc_rat(float(b4['amp_consistency'].values[i])))
